@@ -386,7 +386,9 @@ def check_position(rec, src, kind, desc, mutate):
         schema = from_string(xml, ".xml")
     except HedFileError as e:
         codes = {i.get("code") for i in (e.issues or [])} | {e.code}
-        if codes & EXPECTED[kind]:
+        # a foreign library name on the node other library nodes are rooted at also takes that node out of the library: the
+        # loader refuses the file as a whole with its library code, which reports the fault as well
+        if codes & (EXPECTED[kind] | ({"SCHEMA_LIBRARY_INVALID"} if kind == "foreign-in-library" else set())):
             rec.outcome(f"{kind}:refused-at-load")
             return
         rec.violation(f"C14:{kind}:load-refused-with-other-code:{e.code}", message=str(e.message)[:200], **where)
